@@ -19,6 +19,19 @@ STRENGTHENED = {
  "C17_a": "missed at first; sequential prelude before the first saturation added",
  "C17_b": "missed at first; 'rules cleared while requests wait for an instance' phase added",
  "C18_b": "crashes / races only: members that read locals and 6 executions per text added, caught by the race detector (C19)",
+ "C02_d": "an iterator kept on the shared syntax-tree node: invisible to the single-threaded C02 programs; caught since the pool-storm rules run forRange / for / else-if on request data (C06 loop-or-branch-disturbed) and by the race detector (C19)",
+ "C06_d": "missed at first; storm rules qd (assigns a local, then faults) and ql (reads that name) added: C06 stale-local; also C15",
+ "C07_c": "a lost update between RemoveRules and a concurrent update; the functional symptom needs a removal that takes milliseconds, the race detector (C19) sees it through the two-updater histories",
+ "C09_d": "missed at first; stores of a value of the same kind but another type (named integer type, other struct type) added to the fault catalog: the follow-up call hangs",
+ "C10_d": "needs an incremental update racing a full update: invisible to the single-threaded C10 driver, caught by the C07 histories with two updaters issuing all kinds (added)",
+ "C14_c": "only permutes rules of equal salience (sort.Slice instead of SliceStable, >12 rules); caught after the literal clause 'identical to the variant without a tag' was added on large tie-heavy sets",
+ "C15_c": "missed at first; a rule that assigns a local only in its else branch added to the leak probe",
+ "C15_d": "argument buffer kept on the shared syntax-tree node: caught by the pool-storm rule mix(Req.Id, pause(Req.Id), Req.Id*2) (C06 foreign-arguments) and by C19",
+ "C17_c": "missed at first; phase 'exactly one additional instance is handed back while a request waits' added (needs the hook-fed request->instance map)",
+ "C17_d": "missed at first; requests that end with a panic in the caller's goroutine (nil *Stag) added to the storm",
+ "C18_c": "error list kept on the shared syntax-tree node: invisible to single-engine C18; caught by the pool-storm conc block (C06 conc-error-lost) and by C19",
+ "C18_d": "missed at first; locals that exist before the block and are re-assigned inside it added",
+ "C20_c": "missed at first; decoy added: the same faulty text on an earlier line inside a branch that is never taken",
 }
 rows = []
 for d in sorted(glob.glob('/verif/seeded/C*_*')):
